@@ -11,6 +11,8 @@ mod au;
 mod c04;
 mod c05;
 mod c08;
+mod cl;
+mod c11;
 
 use util::Ctx;
 
@@ -44,6 +46,7 @@ fn main() {
         ("gen", "C04") => c04::gen(&mut ctx),
         ("gen", "C05") => c05::gen(&mut ctx),
         ("gen", "C08") => c08::gen(&mut ctx),
+        ("gen", "C11") => c11::gen(&mut ctx),
         _ => { eprintln!("unknown command"); std::process::exit(2); }
     }
     ctx.finish(stats.as_deref());
